@@ -1,17 +1,789 @@
-//! module `rrect` — streams `rrect.*` (not built yet).
+//! module `rrect` (serves C05, C06, C18; C01 through the styled stream) — the RoundedRectangle primitive.
+//!
+//! Geometry tokens `<g>` = `x y w h tlw tlh trw trh brw brh blw blh` (as the `rrect` shape of shapes.rs).
+//! Streams (op lines; every result line is compared with the Lean model `EG.Model.RoundedRect`):
+//!   rrect.points <g>
+//!       -> bb=<bounding box> cf=<the 8 radii after confine_radii()> pts=<points() list>
+//!          in=<contains() bitmap, row-major, over the bounding box grown by a 3 px margin>
+//!   rrect.confine w h <8 radii>
+//!       -> c=<the 8 radii after confine_radii()>
+//!   rrect.areas <g> width align
+//!       -> s=<x,y,w,h,8 radii of offset(+outside)> f=<.. of offset(-inside)> sbb=<styled_bounding_box>
+//!          (`stroke_area`/`fill_area` are crate-private: they are `offset(outside_stroke_width)` and
+//!          `offset(-inside_stroke_width)`; the split used here is the documented one, the model side
+//!          uses the model of `PrimitiveStyle`)
+//!   rrect.styled <g> fill stroke width align tx ty tw th   (colours `-` or a number; align 0 = Inside,
+//!          1 = Center, 2 = Outside; `tx ty tw th` = bounding box of the target)
+//!       -> log=<call log of draw() on R2> m1=<map of draw() on R1> m2=<map of draw() on R2>
+//!          px=<pixels() sequence, in iteration order>
+//!
+//! Oracle (the property texts as predicates on the real results). Lean statements mirrored:
+//!   C05 `rrect_points_eq_filter_contains`, `rrect_contains_inside_bbox`, `rrect_points_nodup`,
+//!       `rrect_points_row_major` (EG/Props/C05/RoundedRect.lean);
+//!   C18 `confine_fits` (all radii, also pair sums above u32::MAX), `confine_noop`, `confine_le`,
+//!       `zero_radii_eq_rectangle`, `half_radii_eq_ellipse`, `rrect_rows_contiguous`,
+//!       `rrect_columns_contiguous`, `rrect_straight_part_full`, `rrect_contains_corners`,
+//!       `corner_contains_iff_ideal_ellipse/_circle/_small_circle`: corner membership = ideal quarter
+//!       ellipse in doubled integer coordinates (pixel centre `2p + 1`, ellipse centre `2 * inner box
+//!       corner`, semi-axes `2 r`), exactly where the code uses the ellipse equation, and within half a
+//!       pixel (semi-axes `2r +- 1`: the fixed band metric of this oracle) always;
+//!   C06 `rrect_offset_geometry`, `styled_rrect_exact_partial` (+ `FillInStroke`, which is unproved for
+//!       non-zero widths and therefore checked here: class `C06:rrect-fill-area-not-inside-stroke-area`);
+//!   C01 `styled_rrect_pixels_eq_draw_stroked/_partial` (R1 map == R2 map == pixels() map).
 use crate::common::*;
+use embedded_graphics::{
+    pixelcolor::Rgb565,
+    prelude::*,
+    primitives::{
+        ContainsPoint, CornerRadii, Ellipse, OffsetOutline, PrimitiveStyleBuilder, Rectangle, RoundedRectangle, StrokeAlignment,
+    },
+};
 
 pub struct M;
+
+fn align_of(i: u32) -> StrokeAlignment {
+    match i {
+        0 => StrokeAlignment::Inside,
+        1 => StrokeAlignment::Center,
+        _ => StrokeAlignment::Outside,
+    }
+}
+
+/// the documented split of the stroke width: (inside part, outside part)
+fn split(width: u32, align: u32) -> (u32, u32) {
+    match align {
+        0 => (width, 0),
+        1 => (width - width / 2, width / 2), // the larger half inside
+        _ => (0, width),
+    }
+}
+
+fn col_tok(t: &str) -> Option<u32> {
+    if t == "-" {
+        None
+    } else {
+        Some(t.parse().expect("bad colour"))
+    }
+}
+
+fn parse_radii(t: &mut Toks) -> CornerRadii {
+    let tl = t.size();
+    let tr = t.size();
+    let br = t.size();
+    let bl = t.size();
+    CornerRadii { top_left: tl, top_right: tr, bottom_right: br, bottom_left: bl }
+}
+
+fn parse_geometry(t: &mut Toks) -> RoundedRectangle {
+    let r = t.rect();
+    let c = parse_radii(t);
+    RoundedRectangle::new(r, c)
+}
+
+fn fmt_radii(c: &CornerRadii) -> String {
+    format!(
+        "{},{},{},{},{},{},{},{}",
+        c.top_left.width,
+        c.top_left.height,
+        c.top_right.width,
+        c.top_right.height,
+        c.bottom_right.width,
+        c.bottom_right.height,
+        c.bottom_left.width,
+        c.bottom_left.height
+    )
+}
+
+fn fmt_rr(r: &RoundedRectangle) -> String {
+    format!("{},{}", fmt_rect(&r.rectangle), fmt_radii(&r.corners))
+}
+
+fn radii_toks(r: &[(u32, u32); 4]) -> String {
+    format!("{} {} {} {} {} {} {} {}", r[0].0, r[0].1, r[1].0, r[1].1, r[2].0, r[2].1, r[3].0, r[3].1)
+}
+
+/// The four sides as (side length, radius, radius) of the two corners along it.
+fn side_pairs(size: Size, c: &CornerRadii) -> [(&'static str, u64, u64, u64); 4] {
+    [
+        ("top", size.width as u64, c.top_left.width as u64, c.top_right.width as u64),
+        ("right", size.height as u64, c.top_right.height as u64, c.bottom_right.height as u64),
+        ("bottom", size.width as u64, c.bottom_left.width as u64, c.bottom_right.width as u64),
+        ("left", size.height as u64, c.top_left.height as u64, c.bottom_left.height as u64),
+    ]
+}
+
+fn radii_list(c: &CornerRadii) -> [u32; 8] {
+    [
+        c.top_left.width,
+        c.top_left.height,
+        c.top_right.width,
+        c.top_right.height,
+        c.bottom_right.width,
+        c.bottom_right.height,
+        c.bottom_left.width,
+        c.bottom_left.height,
+    ]
+}
+
+/// C18 confine predicates (property text: "radii after confine_radii() never add up to more than the
+/// side they share"; unchanged when they already fit; no radius grows).
+fn check_confine(ctx: &mut Ctx, size: Size, before: &CornerRadii, after: &CornerRadii) {
+    let fits_before = side_pairs(size, before).iter().all(|(_, s, a, b)| a + b <= *s);
+    let saturates = side_pairs(size, before).iter().any(|(_, _, a, b)| a + b > u32::MAX as u64);
+    if saturates {
+        ctx.count("rrect:confine:pair-sum-above-u32");
+    }
+    for (name, s, a, b) in side_pairs(size, after) {
+        if a + b > s {
+            // mechanism key: a pair sum above `u32::MAX` that is clamped hides the real ratio of that side
+            // (repaired defect: `saturating_add` in `confine`)
+            let class = if saturates { "C18:rrect-confine-overflows-side:saturated-pair-sum" } else { "C18:rrect-confine-overflows-side" };
+            ctx.expect(false, class, || format!("{} side {}: radii {} + {} after confine ({})", name, s, a, b, fmt_radii(after)));
+        } else {
+            ctx.checked();
+        }
+    }
+    if fits_before {
+        ctx.count("rrect:confine:already-fits");
+        ctx.expect(before == after, "C18:rrect-confine-changes-fitting-radii", || format!("{} -> {}", fmt_radii(before), fmt_radii(after)));
+    } else {
+        ctx.count("rrect:confine:scaled");
+    }
+    ctx.expect(
+        radii_list(before).iter().zip(radii_list(after).iter()).all(|(b, a)| a <= b),
+        "C18:rrect-confine-grows-radius",
+        || format!("{} -> {}", fmt_radii(before), fmt_radii(after)),
+    );
+}
+
+/// Corner boxes (after confine): (box, doubled ellipse centre = 2 * inner corner of the box, radius).
+fn corner_boxes(rect: &Rectangle, c: &CornerRadii) -> [(Rectangle, (i64, i64), Size); 4] {
+    let (x, y) = (rect.top_left.x, rect.top_left.y);
+    let (w, h) = (rect.size.width as i32, rect.size.height as i32);
+    let bx = |px: i32, py: i32, r: Size| Rectangle::new(Point::new(px, py), r);
+    let tl = c.top_left;
+    let tr = c.top_right;
+    let br = c.bottom_right;
+    let bl = c.bottom_left;
+    [
+        (bx(x, y, tl), (2 * (x as i64 + tl.width as i64), 2 * (y as i64 + tl.height as i64)), tl),
+        (bx(x + w - tr.width as i32, y, tr), (2 * (x as i64 + w as i64 - tr.width as i64), 2 * (y as i64 + tr.height as i64)), tr),
+        (
+            bx(x + w - br.width as i32, y + h - br.height as i32, br),
+            (2 * (x as i64 + w as i64 - br.width as i64), 2 * (y as i64 + h as i64 - br.height as i64)),
+            br,
+        ),
+        (bx(x, y + h - bl.height as i32, bl), (2 * (x as i64 + bl.width as i64), 2 * (y as i64 + h as i64 - bl.height as i64)), bl),
+    ]
+}
+
+/// `Some(inside)` where the corner test of the code is the ideal ellipse equation itself (pixel centre
+/// strictly inside the ellipse with semi-axes `r`), `None` for the small circular corners (radius <= 2)
+/// where the code uses the circle's special thresholds.
+fn ideal_exact(p: Point, c2: (i64, i64), r: Size) -> Option<bool> {
+    let dx = 2 * p.x as i64 + 1 - c2.0;
+    let dy = 2 * p.y as i64 + 1 - c2.1;
+    let a = 2 * r.width as i64;
+    let b = 2 * r.height as i64;
+    if r.width == r.height && r.width <= 2 {
+        None
+    } else {
+        Some(b * b * dx * dx + a * a * dy * dy < a * a * b * b)
+    }
+}
+/// pixel centre strictly inside the ellipse with semi-axes `r + k/2` (doubled: `2r + k`), `k = +-1`
+fn ideal_band(p: Point, c2: (i64, i64), r: Size, k: i64, strict: bool) -> bool {
+    let dx = 2 * p.x as i64 + 1 - c2.0;
+    let dy = 2 * p.y as i64 + 1 - c2.1;
+    let a = 2 * r.width as i64 + k;
+    let b = 2 * r.height as i64 + k;
+    let lhs = b * b * dx * dx + a * a * dy * dy;
+    if strict {
+        lhs < a * a * b * b
+    } else {
+        lhs <= a * a * b * b
+    }
+}
+
+const UNB: (i32, i32, u32, u32) = (-(1 << 20), -(1 << 20), 1 << 21, 1 << 21);
+
+const UNEQUAL: [[(u32, u32); 4]; 20] = [
+    [(1, 2), (3, 1), (0, 0), (2, 4)],
+    [(9, 1), (0, 3), (4, 4), (1, 0)],
+    [(4, 6), (0, 0), (0, 0), (2, 5)],
+    [(0, 0), (4, 6), (0, 0), (2, 5)],
+    [(2, 2), (2, 2), (0, 0), (0, 0)],
+    [(0, 0), (0, 0), (3, 3), (3, 3)],
+    [(5, 1), (1, 5), (5, 1), (1, 5)],
+    [(60, 12), (60, 0), (0, 0), (0, 13)],
+    [(20, 20), (20, 20), (200, 200), (20, 20)],
+    [(1, 1), (2, 2), (3, 3), (4, 4)],
+    [(8, 8), (0, 0), (8, 8), (0, 0)],
+    [(0, 0), (8, 8), (0, 0), (8, 8)],
+    [(3, 7), (3, 0), (3, 7), (3, 0)],
+    [(0, 5), (7, 0), (0, 5), (7, 0)],
+    [(100, 1), (1, 100), (100, 1), (1, 100)],
+    [(1, 1), (0, 0), (0, 0), (0, 0)],
+    [(0, 0), (0, 0), (0, 0), (6, 2)],
+    [(4, 4), (4, 3), (3, 4), (5, 5)],
+    [(2, 9), (9, 2), (1, 1), (7, 7)],
+    [(50, 50), (50, 50), (50, 50), (50, 50)],
+];
 
 impl Module for M {
     fn name(&self) -> &'static str {
         "rrect"
     }
     fn rule(&self) -> &'static str {
-        "not built yet"
+        "rrect.points: every rectangle 0..=8 x 0..=8 (thorough 0..=14) x every equal corner radius 0..=5 x 0..=5 (thorough 0..=8) at 3 positions, \
+         20 unequal radius sets (incl. radii larger than the rectangle and overlapping opposite corners) x 12 sizes, even sizes with half-side radii, \
+         seeded random sizes/radii <= 100 (quick 400, thorough 50 000); rrect.confine: 4 rectangle sizes x radius grid {0,1,3,6,12,60}^4 for two corners x 3 settings of the \
+         other two, plus random radii up to u32::MAX; rrect.styled/areas: sizes 0..=7 squared x widths 0..=4 x 3 alignments x 4 colour options x 2 target boxes \
+         (unbounded, clipping) x 3 of 6 radius sets in rotation, plus seeded random larger cases. Non-trivial: width and height >= 1 (points), and a colour set (styled), \
+         some radius pair not fitting (confine); distinct = distinct op text."
     }
-    fn generate(&self, _pid: &str, _tier: Tier, _rng: &mut Rng, _emit: &mut dyn FnMut(String)) {}
-    fn execute(&self, op: &str, _ctx: &mut Ctx) -> String {
-        panic!("unknown op {}", op)
+
+    fn generate(&self, pid: &str, tier: Tier, rng: &mut Rng, emit: &mut dyn FnMut(String)) {
+        let quick = tier == Tier::Quick;
+        let pos: [(i32, i32); 3] = [(0, 0), (-40, -17), (-5, -3)];
+        if pid == "C05" || pid == "C18" {
+            let smax: u32 = if quick { 8 } else { 14 };
+            let rmax: u32 = if quick { 5 } else { 8 };
+            for w in 0..=smax {
+                for h in 0..=smax {
+                    for rw in 0..=rmax {
+                        for rh in 0..=rmax {
+                            let (x, y) = pos[((w + h + rw + rh) % 3) as usize];
+                            let r = [(rw, rh); 4];
+                            emit(format!("rrect.points {} {} {} {} {}", x, y, w, h, radii_toks(&r)));
+                        }
+                    }
+                }
+            }
+            let sizes: [(u32, u32); 12] =
+                [(4, 7), (8, 8), (7, 3), (10, 6), (1, 5), (12, 12), (0, 4), (5, 0), (100, 10), (20, 20), (9, 14), (3, 3)];
+            for (i, r) in UNEQUAL.iter().enumerate() {
+                for (j, (w, h)) in sizes.iter().enumerate() {
+                    let (x, y) = pos[(i + j) % 3];
+                    emit(format!("rrect.points {} {} {} {} {}", x, y, w, h, radii_toks(r)));
+                }
+            }
+            // even sides, every radius half a side (the ellipse), and neighbours of that case
+            let emax: u32 = if quick { 16 } else { 40 };
+            for w in (0..=emax).step_by(2) {
+                for h in (0..=emax).step_by(2) {
+                    let (x, y) = pos[((w / 2 + h / 2) % 3) as usize];
+                    emit(format!("rrect.points {} {} {} {} {}", x, y, w, h, radii_toks(&[(w / 2, h / 2); 4])));
+                }
+            }
+            let n = if quick { 400 } else { 50_000 };
+            for _ in 0..n {
+                let scale = *rng.pick(&[8i64, 64, 1024, 1 << 20]);
+                let x = rng.range(-scale, scale);
+                let y = rng.range(-scale, scale);
+                let smax = *rng.pick(&[6i64, 12, 30, 100]);
+                let smax = if quick { smax.min(40) } else { smax };
+                let w = rng.range(0, smax);
+                let h = rng.range(0, smax);
+                let mut r = [(0u32, 0u32); 4];
+                let mode = rng.below(5);
+                let base = (rng.range(0, smax) as u32, rng.range(0, smax) as u32);
+                for k in 0..4 {
+                    r[k] = match mode {
+                        0 => base,
+                        1 => ((rng.range(0, w / 2 + 1)) as u32, (rng.range(0, h / 2 + 1)) as u32),
+                        2 => (rng.range(0, smax.min(100)) as u32, rng.range(0, smax.min(100)) as u32),
+                        // two opposite corners large (their boxes may overlap), the other two zero
+                        3 => {
+                            if k % 2 == (w % 2) as usize {
+                                (rng.range(w / 2, w + 1) as u32, rng.range(h / 2, h + 1) as u32)
+                            } else {
+                                (0, 0)
+                            }
+                        }
+                        _ => {
+                            if rng.chance(1, 2) {
+                                (0, 0)
+                            } else {
+                                (rng.range(0, w + 2) as u32, rng.range(0, h + 2) as u32)
+                            }
+                        }
+                    };
+                }
+                emit(format!("rrect.points {} {} {} {} {}", x, y, w, h, radii_toks(&r)));
+            }
+        }
+        if pid == "C18" {
+            let grid: [u32; 6] = [0, 1, 3, 6, 12, 60];
+            let sizes: [(u32, u32); 4] = [(100, 10), (20, 30), (7, 7), (0, 5)];
+            let others: [[(u32, u32); 2]; 3] = [[(0, 0), (0, 0)], [(3, 12), (6, 1)], [(60, 60), (1, 13)]];
+            for (w, h) in sizes.iter() {
+                for a in grid.iter() {
+                    for b in grid.iter() {
+                        for c in grid.iter() {
+                            for d in grid.iter() {
+                                for o in others.iter() {
+                                    let r = [(*a, *b), (*c, *d), o[0], o[1]];
+                                    emit(format!("rrect.confine {} {} {}", w, h, radii_toks(&r)));
+                                }
+                            }
+                        }
+                    }
+                }
+            }
+            let n = if quick { 2000 } else { 50_000 };
+            for _ in 0..n {
+                let big = rng.chance(1, 4);
+                let smax: i64 = if big { u32::MAX as i64 } else { *rng.pick(&[4i64, 30, 200, 5000]) };
+                let val = |rng: &mut Rng| -> u32 {
+                    match rng.below(6) {
+                        0 => 0,
+                        1 => smax as u32,
+                        2 => (smax / 2) as u32,
+                        _ => rng.range(0, smax) as u32,
+                    }
+                };
+                let w = val(rng);
+                let h = val(rng);
+                // radii up to u32::MAX: pair sums beyond u32::MAX are part of the scope (the code adds
+                // them as u64 since the repair of the saturating sums)
+                let rmax: i64 = if big { u32::MAX as i64 } else { 2 * smax };
+                let mut r = [(0u32, 0u32); 4];
+                for k in 0..4 {
+                    let v = |rng: &mut Rng| -> u32 {
+                        match rng.below(5) {
+                            0 => 0,
+                            1 => rmax as u32,
+                            _ => rng.range(0, rmax) as u32,
+                        }
+                    };
+                    r[k] = (v(rng), v(rng));
+                }
+                emit(format!("rrect.confine {} {} {}", w, h, radii_toks(&r)));
+            }
+        }
+        if pid == "C06" {
+            let cols: [(&str, &str); 4] = [("7", "-"), ("-", "9"), ("7", "9"), ("-", "-")];
+            let boxes: [(i32, i32, u32, u32); 2] = [UNB, (2, 1, 5, 4)];
+            let sets: [[(u32, u32); 4]; 6] = [
+                [(0, 0); 4],
+                [(1, 1); 4],
+                [(2, 2); 4],
+                [(3, 2); 4],
+                [(2, 5); 4],
+                [(1, 2), (3, 1), (0, 0), (2, 4)],
+            ];
+            let smax: u32 = if quick { 7 } else { 10 };
+            let wmax: u32 = if quick { 4 } else { 6 };
+            let mut rot = 0usize;
+            for w in 0..=smax {
+                for h in 0..=smax {
+                    for sw in 0..=wmax {
+                        for a in 0..3u32 {
+                            let (x, y) = pos[((w + h + sw + a) % 3) as usize];
+                            for k in 0..3 {
+                                let r = &sets[(rot + 2 * k) % 6];
+                                let g = format!("{} {} {} {} {}", x, y, w, h, radii_toks(r));
+                                emit(format!("rrect.areas {} {} {}", g, sw, a));
+                                for (f, s) in cols.iter() {
+                                    for (bi, b) in boxes.iter().enumerate() {
+                                        // the clipping box is placed relative to the shape so that it really clips
+                                        let (bx, by) = if bi == 1 { (x + b.0, y + b.1) } else { (b.0, b.1) };
+                                        emit(format!("rrect.styled {} {} {} {} {} {} {} {} {}", g, f, s, sw, a, bx, by, b.2, b.3));
+                                    }
+                                }
+                            }
+                            rot += 1;
+                        }
+                    }
+                }
+            }
+            // fill area inside stroke area: many random geometries with wild (oversized, unequal) radii
+            let n = if quick { 6000 } else { 60_000 };
+            for _ in 0..n {
+                let smax: i64 = *rng.pick(&[5i64, 9, 16, 30]);
+                let w = rng.range(0, smax);
+                let h = rng.range(0, smax);
+                let mut r = [(0u32, 0u32); 4];
+                let rm = *rng.pick(&[3i64, 8, 20, 60]);
+                for k in 0..4 {
+                    r[k] = if rng.chance(1, 4) { (0, 0) } else { (rng.range(0, rm) as u32, rng.range(0, rm) as u32) };
+                }
+                let sw = rng.range(0, smax.min(8));
+                let a = rng.below(3);
+                emit(format!("rrect.areas {} {} {} {} {} {} {}", rng.range(-9, 9), rng.range(-9, 9), w, h, radii_toks(&r), sw, a));
+            }
+            // the witnesses of the repaired fill-fallback defect and larger / random cases
+            let n = if quick { 300 } else { 6000 };
+            for _ in 0..n {
+                let scale = *rng.pick(&[8i64, 64, 1024]);
+                let x = rng.range(-scale, scale);
+                let y = rng.range(-scale, scale);
+                let smax: i64 = if quick { 24 } else { 60 };
+                let w = rng.range(0, smax);
+                let h = rng.range(0, smax);
+                let mut r = [(0u32, 0u32); 4];
+                let equal = rng.chance(1, 2);
+                let base = (rng.range(0, smax / 2) as u32, rng.range(0, smax / 2) as u32);
+                for k in 0..4 {
+                    r[k] = if equal { base } else { (rng.range(0, w / 2 + 2) as u32, rng.range(0, h / 2 + 2) as u32) };
+                }
+                let sw = if rng.chance(1, 8) { w.min(h) / 2 + rng.range(0, 3) } else { rng.range(0, if quick { 7 } else { 10 }) };
+                let a = rng.below(3);
+                let (f, s) = *rng.pick(&cols);
+                let g = format!("{} {} {} {} {}", x, y, w, h, radii_toks(&r));
+                emit(format!("rrect.areas {} {} {}", g, sw, a));
+                let b = if rng.chance(1, 3) {
+                    (x + rng.range(-3, w / 2), y + rng.range(-3, h / 2), rng.range(0, w + 4), rng.range(0, h + 4))
+                } else {
+                    (UNB.0 as i64, UNB.1 as i64, UNB.2 as i64, UNB.3 as i64)
+                };
+                emit(format!("rrect.styled {} {} {} {} {} {} {} {} {}", g, f, s, sw, a, b.0, b.1, b.2, b.3));
+            }
+        }
+    }
+
+    fn execute(&self, op: &str, ctx: &mut Ctx) -> String {
+        let mut t = Toks::new(op);
+        match t.str() {
+            "rrect.points" => {
+                let rr = parse_geometry(&mut t);
+                let rect = rr.rectangle;
+                let tl = rect.top_left;
+                let (w, h) = (rect.size.width, rect.size.height);
+                ctx.count("rrect:points");
+                let r8 = radii_list(&rr.corners);
+                let equal = rr.corners.top_left == rr.corners.top_right
+                    && rr.corners.top_left == rr.corners.bottom_right
+                    && rr.corners.top_left == rr.corners.bottom_left;
+                ctx.count(if r8.iter().all(|v| *v == 0) {
+                    "rrect:points:zero-radii"
+                } else if equal {
+                    "rrect:points:equal-radii"
+                } else {
+                    "rrect:points:unequal-radii"
+                });
+                if w >= 1 && h >= 1 {
+                    ctx.nontrivial(op);
+                }
+                let bb = rr.bounding_box();
+                let confined = rr.confine_radii();
+                let cf = confined.corners;
+                if cf != rr.corners {
+                    ctx.count("rrect:points:radii-confined");
+                }
+                let pts: Vec<Point> = rr.points().collect();
+                let m = 3i32;
+                let (x0, y0) = (tl.x - m, tl.y - m);
+                let (x1, y1) = (tl.x + w as i32 + m, tl.y + h as i32 + m);
+                let boxes = corner_boxes(&rect, &cf);
+                let overlap = (0..4).any(|i| (0..4).any(|j| i < j && !boxes[i].0.intersection(&boxes[j].0).is_zero_sized()));
+                if overlap {
+                    ctx.count("rrect:points:corner-boxes-overlap");
+                }
+                let mut bits = String::new();
+                let mut accepted: Vec<Point> = Vec::new();
+                let mut outside_bb = None;
+                let mut not_ideal = None;
+                let mut off_band = None;
+                let mut straight_missing = None;
+                for y in y0..y1 {
+                    for x in x0..x1 {
+                        let p = Point::new(x, y);
+                        let inside = rr.contains(p);
+                        bits.push(if inside { '1' } else { '0' });
+                        if inside {
+                            accepted.push(p);
+                            if !bb.contains(p) {
+                                outside_bb = Some(p);
+                            }
+                        }
+                        if !bb.contains(p) {
+                            continue;
+                        }
+                        // C18: corners follow the ideal quarter ellipses; the straight part is full
+                        let mut in_corner = false;
+                        let mut all_exact = Some(true);
+                        let mut all_shrunk = true;
+                        for (bx, c2, r) in boxes.iter() {
+                            if !bx.contains(p) {
+                                continue;
+                            }
+                            in_corner = true;
+                            match (all_exact, ideal_exact(p, *c2, *r)) {
+                                (Some(acc), Some(v)) => all_exact = Some(acc && v),
+                                _ => all_exact = None,
+                            }
+                            // contains -> centre strictly inside the ellipse grown by half a pixel
+                            if inside && !ideal_band(p, *c2, *r, 1, true) {
+                                off_band = Some(p);
+                            }
+                            all_shrunk = all_shrunk && ideal_band(p, *c2, *r, -1, false);
+                        }
+                        if in_corner {
+                            if let Some(want) = all_exact {
+                                if inside != want {
+                                    not_ideal = Some(p);
+                                }
+                            }
+                            // centre inside every ellipse shrunk by half a pixel -> contains
+                            if all_shrunk && !inside {
+                                off_band = Some(p);
+                            }
+                        } else if !inside {
+                            straight_missing = Some(p);
+                        }
+                    }
+                }
+                // C05
+                ctx.expect(pts == accepted, "C05:rrect-points-ne-contains", || {
+                    format!("points {} vs contains {}", fmt_pts(pts.iter().copied()), fmt_pts(accepted.iter().copied()))
+                });
+                ctx.expect(outside_bb.is_none(), "C05:rrect-contains-outside-bbox", || format!("{:?}", outside_bb));
+                ctx.expect(pts.iter().all(|p| bb.contains(*p)), "C05:rrect-points-outside-bbox", || "points() outside bounding box".into());
+                ctx.expect(
+                    pts.windows(2).all(|w| (w[0].y, w[0].x) < (w[1].y, w[1].x)),
+                    "C05:rrect-points-not-row-major-once",
+                    || fmt_pts(pts.iter().copied()),
+                );
+                let far = [
+                    Point::new(tl.x - 1000, tl.y),
+                    Point::new(tl.x + w as i32 + 1000, tl.y + h as i32 / 2),
+                    Point::new(tl.x + w as i32 / 2, tl.y - 1000),
+                    Point::new(tl.x + w as i32 / 2, tl.y + h as i32 + 1000),
+                ];
+                ctx.expect(far.iter().all(|p| !rr.contains(*p)), "C05:rrect-contains-outside-bbox", || "far probe accepted".into());
+                // C18
+                check_confine(ctx, rect.size, &rr.corners, &cf);
+                ctx.expect(not_ideal.is_none(), "C18:rrect-corner-not-ideal-ellipse", || format!("{:?}", not_ideal));
+                ctx.expect(off_band.is_none(), "C18:rrect-corner-outside-half-pixel-band", || format!("{:?}", off_band));
+                ctx.expect(straight_missing.is_none(), "C18:rrect-straight-part-not-full", || format!("{:?}", straight_missing));
+                {
+                    let mut ok_rows = true;
+                    let mut ok_cols = true;
+                    for y in y0..y1 {
+                        let xs: Vec<i32> = accepted.iter().filter(|p| p.y == y).map(|p| p.x).collect();
+                        if !xs.is_empty() && (xs[xs.len() - 1] - xs[0] + 1) as usize != xs.len() {
+                            ok_rows = false;
+                        }
+                    }
+                    for x in x0..x1 {
+                        let mut ys: Vec<i32> = accepted.iter().filter(|p| p.x == x).map(|p| p.y).collect();
+                        ys.sort();
+                        if !ys.is_empty() && (ys[ys.len() - 1] - ys[0] + 1) as usize != ys.len() {
+                            ok_cols = false;
+                        }
+                    }
+                    ctx.expect(ok_rows, "C18:rrect-row-not-contiguous", || fmt_pts(accepted.iter().copied()));
+                    ctx.expect(ok_cols, "C18:rrect-column-not-contiguous", || fmt_pts(accepted.iter().copied()));
+                }
+                if r8.iter().all(|v| *v == 0) {
+                    let want: Vec<Point> = rect.points().collect();
+                    ctx.expect(accepted == want && pts == want, "C18:rrect-zero-radii-ne-rectangle", || fmt_pts(pts.iter().copied()));
+                }
+                if w % 2 == 0 && h % 2 == 0 && equal && rr.corners.top_left == Size::new(w / 2, h / 2) {
+                    ctx.count("rrect:points:half-radii");
+                    let e = Ellipse::new(tl, rect.size);
+                    let mut want: Vec<Point> = Vec::new();
+                    for y in y0..y1 {
+                        for x in x0..x1 {
+                            if e.contains(Point::new(x, y)) {
+                                want.push(Point::new(x, y));
+                            }
+                        }
+                    }
+                    let epts: Vec<Point> = e.points().collect();
+                    ctx.expect(accepted == want && pts == epts, "C18:rrect-half-radii-ne-ellipse", || {
+                        format!("rrect {} ellipse {}", fmt_pts(accepted.iter().copied()), fmt_pts(want.iter().copied()))
+                    });
+                }
+                format!("bb={} cf={} pts={} in={}", fmt_rect(&bb), fmt_radii(&cf), fmt_pts(pts), bits)
+            }
+            "rrect.confine" => {
+                let size = t.size();
+                let c = parse_radii(&mut t);
+                ctx.count("rrect:confine");
+                let rr = RoundedRectangle::new(Rectangle::new(Point::zero(), size), c);
+                let cf = rr.confine_radii().corners;
+                if cf != c {
+                    ctx.nontrivial(op);
+                }
+                check_confine(ctx, size, &c, &cf);
+                format!("c={}", fmt_radii(&cf))
+            }
+            "rrect.areas" => {
+                let rr = parse_geometry(&mut t);
+                let sw = t.u32();
+                let a = t.u32();
+                let (w, h) = (rr.rectangle.size.width, rr.rectangle.size.height);
+                let tl = rr.rectangle.top_left;
+                let (ins, out) = split(sw, a);
+                ctx.count("rrect:areas");
+                ctx.expect(ins + out == sw, "C06:stroke-width-split", || format!("{} + {} != {}", ins, out, sw));
+                let sa = rr.offset(out as i32);
+                let fa = rr.offset(-(ins as i32));
+                let style = PrimitiveStyleBuilder::<Rgb565>::new()
+                    .stroke_color(Rgb565::from_num(9))
+                    .stroke_width(sw)
+                    .stroke_alignment(align_of(a))
+                    .build();
+                let sbb = rr.into_styled(style).bounding_box();
+                if w >= 1 && h >= 1 {
+                    ctx.nontrivial(op);
+                    // grown on every side by the outside part, every radius grown by it
+                    ctx.expect(
+                        sa.rectangle == Rectangle::new(tl - Point::new(out as i32, out as i32), Size::new(w + 2 * out, h + 2 * out))
+                            && radii_list(&sa.corners).iter().zip(radii_list(&rr.corners).iter()).all(|(s, r)| *s == *r + out),
+                        "C06:rrect-stroke-area-not-grown-by-outside-width",
+                        || fmt_rr(&sa),
+                    );
+                    ctx.expect(sbb == sa.bounding_box(), "C06:rrect-styled-bbox-ne-stroke-area-bbox", || fmt_rect(&sbb));
+                    ctx.expect(
+                        radii_list(&fa.corners).iter().zip(radii_list(&rr.corners).iter()).all(|(f, r)| *f == r.saturating_sub(ins)),
+                        "C06:rrect-fill-area-not-shrunk-by-inside-width",
+                        || fmt_rr(&fa),
+                    );
+                    if w > 2 * ins && h > 2 * ins {
+                        ctx.count("rrect:areas:fill-nondegenerate");
+                        ctx.expect(
+                            fa.rectangle == Rectangle::new(tl + Point::new(ins as i32, ins as i32), Size::new(w - 2 * ins, h - 2 * ins)),
+                            "C06:rrect-fill-area-not-shrunk-by-inside-width",
+                            || fmt_rr(&fa),
+                        );
+                    } else {
+                        ctx.count("rrect:areas:fill-collapsed");
+                        ctx.expect(fa.rectangle.is_zero_sized(), "C06:rrect-fill-area-not-shrunk-by-inside-width", || fmt_rr(&fa));
+                    }
+                }
+                // every point of the fill area lies in the stroke area (Lean: `FillInStroke`, the hypothesis
+                // of `styled_rrect_exact_partial`; unproved for non-zero widths, so it is checked here)
+                {
+                    let fb = fa.bounding_box();
+                    let mut escaped = None;
+                    if fb.size.width <= 400 && fb.size.height <= 400 {
+                        for p in fb.points() {
+                            if fa.contains(p) && !sa.contains(p) {
+                                escaped = Some(p);
+                            }
+                        }
+                    }
+                    ctx.expect(escaped.is_none(), "C06:rrect-fill-area-not-inside-stroke-area", || {
+                        format!("{:?} in fill area {} but not in stroke area {}", escaped, fmt_rr(&fa), fmt_rr(&sa))
+                    });
+                }
+                format!("s={} f={} sbb={}", fmt_rr(&sa), fmt_rr(&fa), fmt_rect(&sbb))
+            }
+            "rrect.styled" => {
+                let rr = parse_geometry(&mut t);
+                let fill = col_tok(t.str());
+                let stroke = col_tok(t.str());
+                let sw = t.u32();
+                let a = t.u32();
+                let tbox = t.rect();
+                let (w, h) = (rr.rectangle.size.width, rr.rectangle.size.height);
+                let tl = rr.rectangle.top_left;
+                let mut sb = PrimitiveStyleBuilder::<Rgb565>::new().stroke_width(sw).stroke_alignment(align_of(a));
+                if let Some(f) = fill {
+                    sb = sb.fill_color(Rgb565::from_num(f));
+                }
+                if let Some(s) = stroke {
+                    sb = sb.stroke_color(Rgb565::from_num(s));
+                }
+                let style = sb.build();
+                let styled = rr.into_styled(style);
+                ctx.count("rrect:styled");
+                ctx.count(match (fill.is_some(), stroke.is_some()) {
+                    (true, false) => "rrect:styled:fill-only",
+                    (false, true) => "rrect:styled:stroke-only",
+                    (true, true) => "rrect:styled:both",
+                    (false, false) => "rrect:styled:none",
+                });
+                ctx.count(match a {
+                    0 => "rrect:styled:inside",
+                    1 => "rrect:styled:center",
+                    _ => "rrect:styled:outside",
+                });
+                let (ins, out) = split(sw, a);
+                match (2 * ins >= w, 2 * ins >= h) {
+                    (true, true) => ctx.count("rrect:styled:fill-collapsed:both"),
+                    (true, false) => ctx.count("rrect:styled:fill-collapsed:fill_w=0"),
+                    (false, true) => ctx.count("rrect:styled:fill-collapsed:fill_h=0"),
+                    _ => {}
+                }
+                if tbox.is_zero_sized() {
+                    ctx.count("rrect:styled:target-empty");
+                }
+                if w >= 1 && h >= 1 && (fill.is_some() || stroke.is_some()) {
+                    ctx.nontrivial(op);
+                }
+                let mut r1 = R1::<Rgb565>::new(tbox);
+                let mut r2 = R2::<Rgb565>::new(tbox);
+                let mut r3 = R1::<Rgb565>::new(tbox);
+                let e1 = styled.draw(&mut r1);
+                let e2 = styled.draw(&mut r2);
+                let px: Vec<((i32, i32), u32)> = styled.pixels().map(|Pixel(p, c)| ((p.x, p.y), c.num())).collect();
+                let e3 = r3.draw_iter(styled.pixels());
+                ctx.expect(e1.is_ok() && e2.is_ok() && e3.is_ok(), "rrect-draw-error", || "draw returned Err".into());
+                // C01: one image whichever path
+                ctx.expect(r1.rec.map == r2.rec.map, "rrect-paths-differ:r1-r2", || format!("R1 {} R2 {}", r1.rec.fmt_map(), r2.rec.fmt_map()));
+                ctx.expect(r1.rec.map == r3.rec.map, "rrect-paths-differ:draw-pixels", || {
+                    format!("draw {} pixels {}", r1.rec.fmt_map(), r3.rec.fmt_map())
+                });
+                // C06: the map follows fill_area / stroke_area
+                let sa = rr.offset(out as i32);
+                let fa = rr.offset(-(ins as i32));
+                let g = (out + 3) as i32;
+                let mut bad = None;
+                let mut inside_viol = None;
+                let mut outside_viol = None;
+                let mut painted = 0usize;
+                for y in (tl.y - g)..(tl.y + h as i32 + g) {
+                    for x in (tl.x - g)..(tl.x + w as i32 + g) {
+                        let p = Point::new(x, y);
+                        let want: Option<u32> = if !tbox.contains(p) {
+                            None
+                        } else if fa.contains(p) {
+                            fill
+                        } else if sa.contains(p) && sw > 0 {
+                            stroke
+                        } else {
+                            None
+                        };
+                        let got = r1.rec.map.get(&(y, x)).copied();
+                        if got.is_some() {
+                            painted += 1;
+                        }
+                        if got != want {
+                            bad = Some((p, got, want));
+                        }
+                        // an inside stroke never paints outside the shape, an outside stroke never inside it
+                        if a == 0 && got.is_some() && !rr.contains(p) {
+                            inside_viol = Some(p);
+                        }
+                        if a == 2 && got.is_some() && got == stroke && fill != stroke && rr.contains(p) {
+                            outside_viol = Some(p);
+                        }
+                    }
+                }
+                ctx.expect(bad.is_none(), "C06:rrect-styled-map-ne-areas", || format!("{:?}", bad));
+                ctx.expect(painted == r1.rec.map.len(), "C06:rrect-styled-paints-outside-stroke-area-box", || {
+                    format!("{} painted in the probe box, {} in the map", painted, r1.rec.map.len())
+                });
+                ctx.expect(inside_viol.is_none(), "C06:rrect-inside-stroke-paints-outside-shape", || format!("{:?}", inside_viol));
+                ctx.expect(outside_viol.is_none(), "C06:rrect-outside-stroke-paints-inside-shape", || format!("{:?}", outside_viol));
+                let mut pxs = String::new();
+                for (i, ((x, y), c)) in px.iter().enumerate() {
+                    if i > 0 {
+                        pxs.push(';');
+                    }
+                    pxs.push_str(&format!("{},{},{}", x, y, c));
+                }
+                if pxs.is_empty() {
+                    pxs.push('-');
+                }
+                format!("log={} m1={} m2={} px={}", r2.rec.fmt_log(), r1.rec.fmt_map(), r2.rec.fmt_map(), pxs)
+            }
+            other => panic!("unknown op {}", other),
+        }
     }
 }
